@@ -18,6 +18,7 @@
 #define HAVE_SYS_TIME_H
 #define HAVE_THREAD_PTHREAD
 #define HAVE_UNISTD_H
+#define HAVE_VALGRIND_VALGRIND_H   /* as meson detects on this image: client requests are no-ops outside Valgrind */
 #define HAVE_VASPRINTF
 #undef ORC_NEEDS_ASM_XSAVE
 #define PACKAGE_VERSION "0.4.40.1"
